@@ -1,0 +1,42 @@
+//go:build verif
+
+package build
+
+import (
+	"regexp"
+
+	"k8s.io/apimachinery/pkg/util/sets"
+)
+
+// VerifResolved mirrors the unexported struct `resolved` (one architecture's
+// resolution as LockImageConfiguration hands it to unify).
+type VerifResolved struct {
+	Arch     string
+	Packages []string
+	Versions map[string]string
+	Provided map[string][]string
+}
+
+// VerifUnify converts its arguments to []resolved and calls unify (wrapper only).
+func VerifUnify(originals []string, inputs []VerifResolved) (map[string][]string, map[string][]string, error) {
+	rs := make([]resolved, 0, len(inputs))
+	for _, in := range inputs {
+		r := resolved{
+			arch:     in.Arch,
+			packages: sets.New(in.Packages...),
+			versions: make(map[string]string, len(in.Versions)),
+			provided: make(map[string]sets.Set[string], len(in.Provided)),
+		}
+		for k, v := range in.Versions {
+			r.versions[k] = v
+		}
+		for k, v := range in.Provided {
+			r.provided[k] = sets.New(v...)
+		}
+		rs = append(rs, r)
+	}
+	return unify(originals, rs)
+}
+
+// VerifLockPackageNameRegex is pkg/build's private copy of packageNameRegex.
+func VerifLockPackageNameRegex() *regexp.Regexp { return packageNameRegex }
